@@ -139,6 +139,171 @@ fn persist_captured(data: &Path, bytes: &[u8], out: &Path) -> Option<Vec<(String
     Some(v)
 }
 
+// ---------------------------------------------------------------------------------------------
+// the HTTP import path: ordering of import, persist and acknowledgement
+// ---------------------------------------------------------------------------------------------
+
+#[derive(Clone, Debug, PartialEq)]
+enum Body {
+    /// a complete export of payload j
+    Good(usize),
+    /// not a gzip stream at all
+    Garbage,
+    /// valid gzip, header with an unsupported format version
+    WrongVersion(usize),
+    /// valid gzip, valid header, the body cut in the middle of a record (re-compressed)
+    TruncatedBody(usize),
+    /// the gzip stream itself cut at 60 % (an interrupted upload)
+    TruncatedUpload(usize),
+    /// complete body, one byte of the gzip trailer (CRC / length) flipped
+    CorruptTrailer(usize),
+    /// complete body plus a relationship to an unknown node id
+    Dangling(usize),
+    /// the same, posted with `?dedup_key=seq` (fails on the dedup path)
+    DanglingDedup(usize),
+}
+
+fn body_name(b: &Body) -> String {
+    match b {
+        Body::Good(j) => format!("good{}", j + 1),
+        Body::Garbage => "garbage".into(),
+        Body::WrongVersion(j) => format!("wrongversion{}", j + 1),
+        Body::TruncatedBody(j) => format!("truncatedbody{}", j + 1),
+        Body::TruncatedUpload(j) => format!("truncatedupload{}", j + 1),
+        Body::CorruptTrailer(j) => format!("corrupttrailer{}", j + 1),
+        Body::Dangling(j) => format!("dangling{}", j + 1),
+        Body::DanglingDedup(j) => format!("danglingdedup{}", j + 1),
+    }
+}
+
+fn parse_body(s: &str) -> Option<Body> {
+    let split = s.find(|c: char| c.is_ascii_digit());
+    let (name, j) = match split {
+        Some(i) => (&s[..i], s[i..].parse::<usize>().ok()?.checked_sub(1)?),
+        None => (s, 0),
+    };
+    Some(match name {
+        "good" => Body::Good(j),
+        "garbage" => Body::Garbage,
+        "wrongversion" => Body::WrongVersion(j),
+        "truncatedbody" => Body::TruncatedBody(j),
+        "truncatedupload" => Body::TruncatedUpload(j),
+        "corrupttrailer" => Body::CorruptTrailer(j),
+        "dangling" => Body::Dangling(j),
+        "danglingdedup" => Body::DanglingDedup(j),
+        _ => return None,
+    })
+}
+
+fn gunzip_text(b: &[u8]) -> String {
+    use std::io::Read;
+    let mut s = String::new();
+    let _ = flate2::read::MultiGzDecoder::new(b).read_to_string(&mut s);
+    s
+}
+
+fn gzip_text(t: &[u8]) -> Vec<u8> {
+    use std::io::Write;
+    let mut e = flate2::write::GzEncoder::new(Vec::new(), flate2::Compression::new(3));
+    e.write_all(t).unwrap();
+    e.finish().unwrap()
+}
+
+fn body_bytes(b: &Body, payloads: &[Payload]) -> Vec<u8> {
+    let of = |j: &usize| payloads[*j % payloads.len()].bytes.clone();
+    match b {
+        Body::Good(j) => of(j),
+        Body::Garbage => b"this is not a snapshot \x00\x01\x02".to_vec(),
+        Body::WrongVersion(j) => gzip_text(gunzip_text(&of(j)).replacen("\"version\":2", "\"version\":9", 1).as_bytes()),
+        Body::TruncatedBody(j) => {
+            let t = gunzip_text(&of(j));
+            let lines: Vec<&str> = t.lines().collect();
+            let keep = 1 + (lines.len() - 1) / 2;
+            let mut out = lines[..keep].join("\n");
+            out.push_str("\n{\"t\":\"n\",\"id\":");
+            gzip_text(out.as_bytes())
+        }
+        Body::TruncatedUpload(j) => {
+            let v = of(j);
+            v[..v.len() * 6 / 10].to_vec()
+        }
+        Body::CorruptTrailer(j) => {
+            let mut v = of(j);
+            let n = v.len();
+            v[n - 6] ^= 0x5a;
+            v
+        }
+        Body::Dangling(j) | Body::DanglingDedup(j) => {
+            let mut t = gunzip_text(&of(j));
+            t.push_str("{\"t\":\"e\",\"id\":999999,\"src\":424242,\"tgt\":424243,\"type\":\"R\",\"props\":{}}\n");
+            gzip_text(t.as_bytes())
+        }
+    }
+}
+
+fn multipart_request(bytes: &[u8], query: &str) -> axum::http::Request<axum::body::Body> {
+    let boundary = "XVERIFBOUNDARYX";
+    let mut body: Vec<u8> = vec![];
+    body.extend_from_slice(
+        format!(
+            "--{}\r\nContent-Disposition: form-data; name=\"file\"; filename=\"s.sgsnap\"\r\nContent-Type: application/octet-stream\r\n\r\n",
+            boundary
+        )
+        .as_bytes(),
+    );
+    body.extend_from_slice(bytes);
+    body.extend_from_slice(format!("\r\n--{}--\r\n", boundary).as_bytes());
+    axum::http::Request::builder()
+        .method("POST")
+        .uri(format!("/api/snapshot/import{}", query))
+        .header("content-type", format!("multipart/form-data; boundary={}", boundary))
+        .body(axum::body::Body::from(body))
+        .unwrap()
+}
+
+struct HttpStep {
+    body: Body,
+    status: u16,
+    memory_changed: bool,
+    restored: String,
+}
+
+/// One history through the shipped router (`HttpServer::router()` with a data directory): after
+/// every request the in-memory store is dumped and a restart is simulated
+/// (`restore_persisted_snapshots` from the data directory into a fresh store).
+fn run_http_history(bodies: &[Body], payloads: &[Payload], data: &Path) -> Option<Vec<HttpStep>> {
+    use http_body_util::BodyExt;
+    use tower::ServiceExt;
+    std::fs::create_dir_all(data).ok()?;
+    let store = Arc::new(tokio::sync::RwLock::new(GraphStore::new()));
+    let server = samyama::http::server::HttpServer::new(Arc::clone(&store), 0).with_data_path(Some(data.to_string_lossy().to_string()));
+    let rt = tokio::runtime::Builder::new_current_thread().enable_all().build().ok()?;
+    let mut out = vec![];
+    for b in bodies {
+        let bytes = body_bytes(b, payloads);
+        let query = if matches!(b, Body::DanglingDedup(_)) { "?dedup_key=seq" } else { "" };
+        let (before, status, after) = rt.block_on(async {
+            let before = {
+                let g = store.read().await;
+                let d = dump_store(&g);
+                format!("{}#{}", d.text, d.aux)
+            };
+            let resp = server.router().oneshot(multipart_request(&bytes, query)).await.ok()?;
+            let status = resp.status().as_u16();
+            let _ = resp.into_body().collect().await;
+            let after = {
+                let g = store.read().await;
+                let d = dump_store(&g);
+                format!("{}#{}", d.text, d.aux)
+            };
+            Some((before, status, after))
+        })?;
+        let (restored, _) = restart(data, payloads);
+        out.push(HttpStep { body: b.clone(), status, memory_changed: before != after, restored });
+    }
+    Some(out)
+}
+
 fn hist_txt(n: usize) -> String {
     if n == 0 {
         "-".into()
@@ -214,6 +379,7 @@ fn main() {
 
     // histories: lists of graph-building programs
     let mut histories: Vec<Vec<Vec<Op>>> = vec![];
+    let mut http_histories: Vec<(Vec<Vec<Op>>, Vec<Body>)> = vec![];
     let mut files: Vec<PathBuf> = vec![];
     if let Some(r) = &args.replay {
         files.push(r.clone());
@@ -224,6 +390,18 @@ fn main() {
     let mut n_corpus = 0;
     for f in &files {
         for line in std::fs::read_to_string(f).unwrap_or_default().lines() {
+            if let Some(rest) = line.trim().strip_prefix("httphist ") {
+                let mut it = rest.split(' ');
+                let bodies: Option<Vec<Body>> = it.next().map(|b| b.split(',').map(parse_body).collect()).flatten();
+                let progs: Option<Vec<Vec<Op>>> = it.map(parse_ops).collect();
+                if let (Some(b), Some(p)) = (bodies, progs) {
+                    if !p.is_empty() {
+                        http_histories.push((p, b));
+                        n_corpus += 1;
+                    }
+                }
+                continue;
+            }
             if let Some(rest) = line.trim().strip_prefix("hist ") {
                 let progs: Option<Vec<Vec<Op>>> = rest.split(' ').map(parse_ops).collect();
                 if let Some(p) = progs {
@@ -259,6 +437,41 @@ fn main() {
         }
     }
 
+    if args.replay.is_none() {
+        // HTTP histories: 1-3 requests mixing good snapshots and bodies failing at different stages
+        let mut hr = Rng::new(args.seed ^ 0x4774_9001);
+        let per = if args.thorough() { 4 } else { 1 };
+        for h in histories.clone().iter() {
+            for _ in 0..per {
+                let len = 1 + hr.usize(3);
+                let mut bodies = vec![];
+                for i in 0..len {
+                    let j = i % h.len();
+                    bodies.push(match hr.usize(14) {
+                        0..=5 => Body::Good(j),
+                        6 => Body::Garbage,
+                        7 => Body::WrongVersion(j),
+                        8 | 9 => Body::TruncatedBody(j),
+                        10 => Body::TruncatedUpload(j),
+                        11 => Body::CorruptTrailer(j),
+                        12 => Body::Dangling(j),
+                        _ => Body::DanglingDedup(j),
+                    });
+                }
+                // the shape that matters most: an acknowledged import, then a refused one
+                if hr.chance(1, 3) && len >= 2 {
+                    bodies[0] = Body::Good(0);
+                    bodies[1] = match hr.usize(4) {
+                        0 => Body::TruncatedBody(1 % h.len()),
+                        1 => Body::TruncatedUpload(1 % h.len()),
+                        2 => Body::CorruptTrailer(1 % h.len()),
+                        _ => Body::Dangling(1 % h.len()),
+                    };
+                }
+                http_histories.push((h.clone(), bodies));
+            }
+        }
+    }
     let events: Arc<Mutex<Vec<(String, PathBuf)>>> = Arc::new(Mutex::new(vec![]));
     let mut chain_rng = Rng::new(args.seed ^ 0x5eed_c14);
     let mut case_no = 0usize;
@@ -570,6 +783,95 @@ fn main() {
             }
         }
         let _ = std::fs::remove_dir_all(&base);
+    }
+    // (f) the HTTP import path through the shipped router
+    for (k, (progs, bodies)) in http_histories.iter().enumerate() {
+        let mut payloads: Vec<Payload> = vec![];
+        let mut ok = true;
+        for p in progs {
+            let b = build(p);
+            let mut bytes = vec![];
+            export_tenant(&b.store, &mut bytes).expect("export");
+            let mut st = GraphStore::new();
+            if import_tenant(&mut st, &bytes[..]).is_err() {
+                ok = false;
+                break;
+            }
+            payloads.push(Payload { bytes, dump: dump_store(&st).text });
+        }
+        let distinct = {
+            let mut d: Vec<&String> = payloads.iter().map(|p| &p.dump).collect();
+            d.sort();
+            d.dedup();
+            d.len() == payloads.len()
+        };
+        if !ok || !distinct {
+            rep.count("skipped:http-history");
+            continue;
+        }
+        let txt = format!(
+            "httphist {} {}",
+            bodies.iter().map(body_name).collect::<Vec<_>>().join(","),
+            progs.iter().map(|p| render_ops(p)).collect::<Vec<_>>().join(" ")
+        );
+        let data = args.work.join(format!("c14-http-{}", k));
+        let Some(steps) = run_http_history(bodies, &payloads, &data) else {
+            rep.count("http-history-unavailable");
+            continue;
+        };
+        let mut expected = "nothing".to_string();
+        let mut model_reqs: Vec<String> = vec![];
+        let mut seen_ack = false;
+        for (i, st) in steps.iter().enumerate() {
+            let after_ack_refused = seen_ack && st.status != 200;
+            rep.case(&format!("{} @{}", txt, i), after_ack_refused);
+            rep.count(&format!("http:{}:{}", body_name(&st.body).trim_end_matches(|c: char| c.is_ascii_digit()), st.status));
+            let body = format!(
+                "{}\nrequest {} = {} -> HTTP {}; in-memory store changed: {}; a restart restores {}; last acknowledged before: {}",
+                txt, i, body_name(&st.body), st.status, st.memory_changed, st.restored, expected
+            );
+            let good = matches!(st.body, Body::Good(_));
+            let mut sig: Option<&str> = None;
+            if st.status == 200 {
+                if !good {
+                    sig = Some("http:broken-body-acknowledged");
+                } else if let Body::Good(j) = &st.body {
+                    expected = format!("ok:{}", (j % payloads.len()) + 1);
+                    seen_ack = true;
+                    if st.restored != expected {
+                        sig = Some("http:acknowledged-import-not-restored");
+                    }
+                }
+                model_reqs.push(format!("{}:1", expected.trim_start_matches("ok:")));
+            } else {
+                if good {
+                    sig = Some("http:good-import-refused");
+                } else if st.restored != expected {
+                    sig = Some("http:refused-import-changed-what-a-restart-restores");
+                } else if st.memory_changed {
+                    sig = Some("http:refused-import-changed-memory");
+                }
+                model_reqs.push(format!("{}:0", 90 + i));
+            }
+            if let Some(sig) = sig {
+                rep.count(&format!("spec_violation:{}", sig));
+                rep.spec_violation(
+                    &known,
+                    sig,
+                    &format!("POST /api/snapshot/import #{} ({}) answered {}; a restart now restores `{}`, the last acknowledged import is `{}`", i, body_name(&st.body), st.status, st.restored, expected),
+                    &body,
+                );
+                break;
+            }
+            let m = drv.ask(&format!("http {}", model_reqs.join(",")));
+            if m.split(' ').nth(2) != Some(st.restored.as_str()) {
+                rep.count("model_mismatch:http");
+                if first_break.is_none() {
+                    first_break = Some(("SgModel.SnapFS.handleAll / restoreProcess = the HTTP import handler followed by a restart".into(), format!("{}\nmodel {}", body, m)));
+                }
+            }
+        }
+        let _ = std::fs::remove_dir_all(&data);
     }
     if let Some((name, body)) = first_break {
         if rep.spec_violations.is_empty() {
